@@ -91,7 +91,7 @@ def required_counters(tier):
          'judged:overwritten-completely': 80 * k, 'skipped-element-success': 100 * k, 'overwrite-through-symlink': 20 * k}
     for f in FORMATS:
         d[f'success:{f}'] = 25 * k
-        d[f'raised-on-injection:{f}'] = 100 * k
+        d[f'raised-on-injection:{f}'] = (100 if f != 'ds9' else 40) * k      # ds9 now skips (with a warning) what it cannot express; only bad options raise
         d[f'serialiser-seen:{f}'] = 25 * k
     for dst in DESTS:
         d[f'success-on:{dst}'] = 40 * k
@@ -685,7 +685,8 @@ MUTANTS = [
     ('crtf-open-before-serialisation', 'regions/io/crtf/write.py',
      "    output = _serialize_crtf(regions, coordsys=coordsys, fmt=fmt,\n                             radunit=radunit)\n    with open(filename, 'w') as fh:\n        fh.write(output)",
      "    with open(filename, 'w') as fh:\n        fh.write(_serialize_crtf(regions, coordsys=coordsys, fmt=fmt,\n                                 radunit=radunit))"),
-    ('fits-overwrite-not-forwarded', 'regions/io/fits/write.py', 'bin_table.writeto(filename, overwrite=overwrite)', 'bin_table.writeto(filename, overwrite=True)'),
+    ('fits-exists-instead-of-lexists', 'regions/io/fits/write.py', "    if os.path.lexists(filename) and not overwrite:\n        raise OSError(f'{filename} already exists')\n\n    output = _serialize_fits(regions)", "    if os.path.exists(filename) and not overwrite:\n        raise OSError(f'{filename} already exists')\n\n    output = _serialize_fits(regions)"),
+    ('fits-overwrite-never-forwarded', 'regions/io/fits/write.py', 'bin_table.writeto(filename, overwrite=overwrite)', 'bin_table.writeto(filename, overwrite=False)'),
     ('ds9-write-extension-tuple-misindexed', 'regions/io/ds9/connect.py', "'write': all_exten[0:2]}", "'write': all_exten[0:1]}"),
     ('fits-write-extension-tuple-misindexed', 'regions/io/fits/connect.py', "'write': all_exten[0:3]}", "'write': all_exten[0:2]}"),
     ('crtf-signature-compared-as-str-only', 'regions/io/crtf/connect.py', 'return sig == signature or sig == signature.encode()', 'return sig == signature'),
